@@ -6,6 +6,7 @@ all theorems quantify over *every* admissible draw.
 -/
 import SnowModel.Core.Bounded
 import SnowModel.Proofs.C11
+import SnowModel.Proofs.C11Render
 
 namespace SnowModel.Props.C11
 open SnowModel.Bounded
@@ -131,6 +132,80 @@ example : randomNumber 12 23 5 2 = .value 22 := by decide
 example : randomNumber (-7) (-7) 1 0 = .value (-7) := by decide
 example : rnCount 12 23 5 = 3 := by decide
 example : randomNumber 10 0 (-3) 2 = .value 4 := by decide
+
+/-! ### `random_number` as a recipe writes it (default dialect: `str` + `look_for_number`) -/
+
+/-- **An integer survives the v2 re-rendering, for every integer** — whatever its size (no
+    rounding through a float above `2^53`): a positive one comes back as the same `int`; `0` and
+    negative ones come back as their decimal text (the leading-zero rule, and `-` is not a number
+    character), which still denotes the same integer. -/
+theorem render_v2_identity (x : Int) : ∃ v, renderV2 x = .ok v ∧ valAsInt v = some x := by
+  rcases Proofs.C11Render.renderV2_cases x with ⟨_, h⟩ | ⟨_, h⟩
+  · exact ⟨_, h, rfl⟩
+  · exact ⟨_, h, Proofs.C11Render.valAsInt_str_intToStr x⟩
+
+theorem render_v2_pos (x : Int) (h : 0 < x) : renderV2 x = .ok (.int x) := by
+  rcases Proofs.C11Render.renderV2_cases x with ⟨_, h'⟩ | ⟨h0, _⟩
+  · exact h'
+  · omega
+
+theorem render_v2_nonpos (x : Int) (h : x ≤ 0) : renderV2 x = .ok (.str (L2.intToStr x)) := by
+  rcases Proofs.C11Render.renderV2_cases x with ⟨h0, _⟩ | ⟨_, h'⟩
+  · omega
+  · exact h'
+
+/-- **Inline form `${{random_number(min=…, max=…, step=…)}}`**: the value the output stream
+    receives after re-rendering denotes exactly the drawn value, so it is on the lattice, inside
+    the bounds, and both ends are produced by the extreme draws. -/
+theorem random_number_inline_v2 (min max step : Int) (k : Nat) (x : Int) (hs : 1 ≤ step)
+    (h : randomNumber min max step k = .value x) :
+    ∃ v, renderV2 x = .ok v ∧ valAsInt v = some x ∧
+      min ≤ x ∧ x ≤ max ∧ step ∣ (x - min) := by
+  obtain ⟨v, hv, hx⟩ := render_v2_identity x
+  obtain ⟨_, h1, h2, h3⟩ := random_number_lattice min max step k x hs h
+  exact ⟨v, hv, hx, h1, h2, h3⟩
+
+/-- Literal YAML ints, keyword arguments inside a formula and every v3 recipe hand the integers
+    over unchanged. -/
+theorem random_number_via_native (min max step : Int) (k : Nat) :
+    randomNumberVia .native min max step k = .out (randomNumber min max step k) := rfl
+
+theorem argSeen_formula (x : Int) :
+    argSeen .formulaV2 x = if 0 < x then some x else none := by
+  unfold argSeen
+  rcases Proofs.C11Render.renderV2_cases x with ⟨h0, h⟩ | ⟨h0, h⟩
+  · simp [h, h0]
+  · have : ¬ 0 < x := by omega
+    simp [h, this]
+
+/-- **Formula-valued arguments (`min: ${{…}}`) — partial.** Positive arguments of any size reach the
+    function unchanged: bounds and lattice are those of the written integers. -/
+theorem random_number_formula_args_partial (min max step : Int) (k : Nat)
+    (h1 : 0 < min) (h2 : 0 < max) (h3 : 0 < step) :
+    randomNumberVia .formulaV2 min max step k = .out (randomNumber min max step k) := by
+  simp [randomNumberVia, argSeen_formula, h1, h2, h3]
+
+/-- **… refuted in general (D54).** A formula-valued argument that is `0` or negative reaches
+    `random_number` as a string and the call fails with a TypeError although the range is not
+    empty (`min: ${{0 - 5}}`, `max: ${{0 - 3}}`). -/
+theorem random_number_formula_args_refuted :
+    ∃ (min max step : Int) (k : Nat) (x : Int),
+      randomNumber min max step k = .value x ∧
+      randomNumberVia .formulaV2 min max step k = .typeError := by
+  refine ⟨-5, -3, 1, 0, -5, by decide, ?_⟩
+  simp [randomNumberVia, argSeen_formula]
+
+/-- Exactly when: some argument is not positive. -/
+theorem random_number_formula_args_typeError_iff (min max step : Int) (k : Nat) :
+    randomNumberVia .formulaV2 min max step k = .typeError ↔ (min ≤ 0 ∨ max ≤ 0 ∨ step ≤ 0) := by
+  simp only [randomNumberVia, argSeen_formula]
+  by_cases h1 : 0 < min <;> by_cases h2 : 0 < max <;> by_cases h3 : 0 < step <;>
+    simp [h1, h2, h3] <;> omega
+
+example : renderV2 9007199254740993 = .ok (.int 9007199254740993) := render_v2_pos _ (by decide)
+example : randomNumberVia .formulaV2 9007199254740993 9007199254741001 2 4
+    = .out (.value 9007199254741001) := by
+  rw [random_number_formula_args_partial _ _ _ _ (by decide) (by decide) (by decide)]; decide
 
 /-! ### `random_choice` -/
 
